@@ -134,12 +134,12 @@ class DexInterp(Interp):
             except _Continue:
                 continue
 
-    def unknown(self, v, node, func):
+    def unknown(self, v, node, func, **kw):
         """opaque_default=False: follow only the path on which every opaque validation test is false
         (the 'all checks pass' path of `if bad: raise` style code) instead of splitting"""
         if self.opaque_default is not None:
             return self.opaque_default
-        return super().unknown(v, node, func)
+        return super().unknown(v, node, func, **kw)
 
     def truth_cond(self, c, node, func):
         if self.opaque_default is not None:
@@ -201,6 +201,8 @@ class DexInterp(Interp):
                 st = args[1]
                 k = st.n_leb
                 st.n_leb += 1
+                if getattr(st, "leb_values", None):
+                    return st.leb_values.pop(0)   # scenario streams with concrete LEB128 values
                 st.log.append(("leb", LEB_READERS[fn], k))
                 st.pos = self.binop(ast.Add(), st.pos, Sym("leblen", st.name, k), e)
                 return Sym(LEB_READERS[fn], st.name, k)
@@ -436,6 +438,17 @@ def prov(v, chain=(), loopenv=None, out=None, opaque=None):
             for a in v.args:
                 rec(a, chain + (("range",),))
             return out
+        if op in ("BitAnd", "BitOr", "BitXor", "LShift", "RShift", "Mod", "FloorDiv", "Mult", "Sub") and len(v.args) == 2:
+            # arithmetic with a constant applied to a value read from the file: a known modification of that value
+            a0, a1 = v.args
+            c0 = a0.value() if isinstance(a0, Bits) and a0.is_const() else a0
+            c1 = a1.value() if isinstance(a1, Bits) and a1.is_const() else a1
+            if isinstance(c1, int) and not isinstance(c1, (bool, Bits)):
+                rec(a0, chain + (("arith", op, c1),))
+                return out
+            if isinstance(c0, int) and not isinstance(c0, (bool, Bits)):
+                rec(a1, chain + (("arith", op + "-by", c0),))
+                return out
         if op in TRANSPARENT:
             for a in v.args:
                 if not isinstance(a, str) or op not in ("strop",):
